@@ -467,117 +467,6 @@ fn main() {
     let mut multi_outcome_bodies = 0usize;
     let mut explored_bodies = 0usize;
     let mut unexplorable = 0usize;
-    for body in &bodies {
-        // all schedules (no preemption bound); a body whose schedule space does not close within
-        // the budget is explored again completely under preemption bound 2
-        let mut r = explore(body, None, 2_000_000, budget, 0);
-        if r.capped && r.violation.is_none() {
-            let r2 = explore(body, Some(2), 2_000_000, budget * 2.0, 0);
-            bounded += 1;
-            r = HarnessResult { executions: r.executions + r2.executions, outcomes: r.outcomes.max(r2.outcomes), violation: r2.violation, capped: r2.capped, library_thread_left: r.library_thread_left || r2.library_thread_left };
-        }
-        explored_bodies += 1;
-        if debug {
-            eprintln!("body {body:?}: executions {} outcomes {} capped {} violation {:?}", r.executions, r.outcomes, r.capped, r.violation);
-        }
-        total_exec += r.executions;
-        total_outcomes += r.outcomes;
-        if r.outcomes > 1 {
-            multi_outcome_bodies += 1;
-        }
-        if r.capped {
-            capped += 1;
-        }
-        if r.library_thread_left {
-            unexplorable += 1;
-        }
-        if let Some(v) = r.violation {
-            viol.add("", || Violation { key: String::new(), summary: format!("threads {body:?}: {v}"), replay: json!({"threads": format!("{body:?}"), "shared_scanner": "built through the cache before the threads start", "inputs": [INPUT, INPUT2], "problem": v, "how": "loom::model over scnr built with feature verif_loom; every thread runs its ops in order"}) });
-        }
-        if samples.items.len() < 6 && r.executions > 50 {
-            samples.push(|| json!({"threads": format!("{body:?}"), "executions": r.executions, "distinct_completion_orders": r.outcomes}));
-        }
-        if run.elapsed() > if tier == Tier::Quick { 400.0 } else { 3000.0 } || viol.total() > 20 {
-            break;
-        }
-    }
-    // the same races on a cache that is already well filled (bounds such as 16, 128, 256, 1000,
-    // 1024 are typical for a bounded cache): builds of distinct new configurations and of a failing one
-    let mut prefilled = vec![];
-    for prefill in [130usize, 1030] {
-        for body in [vec![vec![Op::BuildAPrime], vec![Op::BuildBad]], vec![vec![Op::BuildAPrime, Op::BuildA2], vec![Op::BuildAPrime]], vec![vec![Op::BuildAPrime], vec![Op::ScanShared], vec![Op::BuildA]]] {
-            if prefill > 200 && tier == Tier::Quick && body.len() == 3 {
-                continue;
-            }
-            let r = explore(&body, None, 2_000_000, budget * 4.0, prefill);
-            total_exec += r.executions;
-            total_outcomes += r.outcomes;
-            if r.capped {
-                capped += 1;
-            }
-            prefilled.push(json!({"prefill": prefill, "threads": format!("{body:?}"), "executions": r.executions, "capped": r.capped}));
-            if let Some(v) = r.violation {
-                viol.add("", || Violation { key: String::new(), summary: format!("cache pre-filled with {prefill} other configurations, threads {body:?}: {v}"), replay: json!({"prefill": prefill, "threads": format!("{body:?}"), "problem": v, "how": "build `prefill` distinct one-pattern configurations through the cache, then run the threads; loom::model over scnr built with feature verif_loom"}) });
-            }
-        }
-    }
-    // capacity sweep: two threads miss with two distinct new configurations while the cache holds
-    // exactly C-4 .. C+1 other entries, for every typical bound C of a bounded cache
-    let bounds: &[usize] = if tier == Tier::Quick { &[8, 16, 32, 64, 100, 128, 256] } else { &[2, 4, 8, 10, 16, 20, 32, 50, 64, 100, 128, 200, 250, 256, 500, 512, 1000, 1024] };
-    let mut fills: Vec<usize> = bounds.iter().flat_map(|c| (c.saturating_sub(4)..=c + 1)).collect();
-    fills.sort();
-    fills.dedup();
-    let mut sweep_exec = 0usize;
-    for &prefill in &fills {
-        let body = vec![vec![Op::BuildAPrime], vec![Op::BuildB]];
-        let r = explore(&body, None, 2_000_000, budget * 4.0, prefill);
-        total_exec += r.executions;
-        sweep_exec += r.executions;
-        if r.capped {
-            capped += 1;
-        }
-        if let Some(v) = r.violation {
-            viol.add("", || Violation { key: String::new(), summary: format!("cache pre-filled with {prefill} other configurations, threads {body:?}: {v}"), replay: json!({"prefill": prefill, "threads": format!("{body:?}"), "problem": v, "how": "build `prefill` distinct one-pattern configurations through the cache, then two threads build two distinct new configurations; loom::model over scnr built with feature verif_loom"}) });
-            break;
-        }
-    }
-    prefilled.push(json!({"capacity_sweep": {"typical_bounds": bounds, "prefill_values": fills.len(), "threads": "[[BuildAPrime], [BuildB]]", "executions": sweep_exec}}));
-    // second sweep: the entries the threads look up are the OLDEST ones. A is built first, then F
-    // other one-pattern configurations (every F from C-16 to C+1 for the typical bounds C: a ring or
-    // LRU structure of capacity C is about to overwrite A's entries), then one thread re-creates A
-    // outside the cache lock (Scanner::try_from) or through it (build) while another thread
-    // introduces new patterns outside the cache lock
-    {
-        let bounds2: &[usize] = if tier == Tier::Quick { &[64, 128, 256] } else { &[16, 32, 64, 100, 128, 256, 512, 1000, 1024] };
-        let mut fills2: Vec<usize> = bounds2.iter().flat_map(|c| (c.saturating_sub(16)..=c + 1)).collect();
-        fills2.sort();
-        fills2.dedup();
-        let mut sweep2_exec = 0usize;
-        FILL_AFTER_SHARED.store(true, Ordering::Relaxed);
-        'sweep2: for &prefill in &fills2 {
-            for body in [vec![vec![Op::TryFromA], vec![Op::TryFromDeep]], vec![vec![Op::BuildA], vec![Op::UncachedDeep2]]] {
-                // all schedules with at most two preemptions first (closes in any case), then all
-                let mut r = explore(&body, Some(2), 2_000_000, budget, prefill);
-                total_exec += r.executions;
-                sweep2_exec += r.executions;
-                if r.violation.is_none() {
-                    r = explore(&body, None, 2_000_000, budget, prefill);
-                    total_exec += r.executions;
-                    sweep2_exec += r.executions;
-                }
-                if r.capped {
-                    capped += 1;
-                }
-                if let Some(v) = r.violation {
-                    viol.add("", || Violation { key: String::new(), summary: format!("A built, then {prefill} other configurations, then threads {body:?}: {v}"), replay: json!({"fill_after_the_shared_scanner": prefill, "threads": format!("{body:?}"), "problem": v, "how": "build A through the cache, then `fill` distinct one-pattern configurations through the cache, then run the threads; loom::model over scnr built with feature verif_loom"}) });
-                    break 'sweep2;
-                }
-            }
-        }
-        FILL_AFTER_SHARED.store(false, Ordering::Relaxed);
-        prefilled.push(json!({"capacity_sweep_oldest_entries": {"typical_bounds": bounds2, "fill_values": fills2.len(), "threads": "[[TryFromA], [TryFromDeep]] and [[BuildA], [UncachedDeep2]]", "executions": sweep2_exec}}));
-    }
-    let unexplored = bodies.len() - explored_bodies;
     // Supporting pass (sampling, not the deciding step): the same kinds of operations free-running on
     // OS threads, including uncached builds and drops, whose only shared state are reference counts of
     // std's Arc/Weak - operations loom cannot interleave here.
@@ -624,6 +513,133 @@ fn main() {
             },
         }
     };
+    // It runs first: a library whose synchronisation was changed can make the schedule spaces
+    // below explode (every body then runs into its cap, which takes many minutes); what the
+    // free-running threads already show is reported at once and the exhaustive part is skipped.
+    let stress_failed = viol.total() > 0;
+    for body in &bodies {
+        if stress_failed {
+            break;
+        }
+        // all schedules (no preemption bound); a body whose schedule space does not close within
+        // the budget is explored again completely under preemption bound 2
+        let mut r = explore(body, None, 2_000_000, budget, 0);
+        if r.capped && r.violation.is_none() {
+            let r2 = explore(body, Some(2), 2_000_000, budget * 2.0, 0);
+            bounded += 1;
+            r = HarnessResult { executions: r.executions + r2.executions, outcomes: r.outcomes.max(r2.outcomes), violation: r2.violation, capped: r2.capped, library_thread_left: r.library_thread_left || r2.library_thread_left };
+        }
+        explored_bodies += 1;
+        if debug {
+            eprintln!("body {body:?}: executions {} outcomes {} capped {} violation {:?}", r.executions, r.outcomes, r.capped, r.violation);
+        }
+        total_exec += r.executions;
+        total_outcomes += r.outcomes;
+        if r.outcomes > 1 {
+            multi_outcome_bodies += 1;
+        }
+        if r.capped {
+            capped += 1;
+        }
+        if r.library_thread_left {
+            unexplorable += 1;
+        }
+        if let Some(v) = r.violation {
+            viol.add("", || Violation { key: String::new(), summary: format!("threads {body:?}: {v}"), replay: json!({"threads": format!("{body:?}"), "shared_scanner": "built through the cache before the threads start", "inputs": [INPUT, INPUT2], "problem": v, "how": "loom::model over scnr built with feature verif_loom; every thread runs its ops in order"}) });
+        }
+        if samples.items.len() < 6 && r.executions > 50 {
+            samples.push(|| json!({"threads": format!("{body:?}"), "executions": r.executions, "distinct_completion_orders": r.outcomes}));
+        }
+        if run.elapsed() > if tier == Tier::Quick { 400.0 } else { 3000.0 } || viol.total() > 20 {
+            break;
+        }
+    }
+    // the same races on a cache that is already well filled (bounds such as 16, 128, 256, 1000,
+    // 1024 are typical for a bounded cache): builds of distinct new configurations and of a failing one
+    let mut prefilled = vec![];
+    for prefill in [130usize, 1030] {
+        if stress_failed {
+            break;
+        }
+        for body in [vec![vec![Op::BuildAPrime], vec![Op::BuildBad]], vec![vec![Op::BuildAPrime, Op::BuildA2], vec![Op::BuildAPrime]], vec![vec![Op::BuildAPrime], vec![Op::ScanShared], vec![Op::BuildA]]] {
+            if prefill > 200 && tier == Tier::Quick && body.len() == 3 {
+                continue;
+            }
+            let r = explore(&body, None, 2_000_000, budget * 4.0, prefill);
+            total_exec += r.executions;
+            total_outcomes += r.outcomes;
+            if r.capped {
+                capped += 1;
+            }
+            prefilled.push(json!({"prefill": prefill, "threads": format!("{body:?}"), "executions": r.executions, "capped": r.capped}));
+            if let Some(v) = r.violation {
+                viol.add("", || Violation { key: String::new(), summary: format!("cache pre-filled with {prefill} other configurations, threads {body:?}: {v}"), replay: json!({"prefill": prefill, "threads": format!("{body:?}"), "problem": v, "how": "build `prefill` distinct one-pattern configurations through the cache, then run the threads; loom::model over scnr built with feature verif_loom"}) });
+            }
+        }
+    }
+    // capacity sweep: two threads miss with two distinct new configurations while the cache holds
+    // exactly C-4 .. C+1 other entries, for every typical bound C of a bounded cache
+    let bounds: &[usize] = if tier == Tier::Quick { &[8, 16, 32, 64, 100, 128, 256] } else { &[2, 4, 8, 10, 16, 20, 32, 50, 64, 100, 128, 200, 250, 256, 500, 512, 1000, 1024] };
+    let mut fills: Vec<usize> = bounds.iter().flat_map(|c| (c.saturating_sub(4)..=c + 1)).collect();
+    fills.sort();
+    fills.dedup();
+    let mut sweep_exec = 0usize;
+    for &prefill in &fills {
+        if stress_failed {
+            break;
+        }
+        let body = vec![vec![Op::BuildAPrime], vec![Op::BuildB]];
+        let r = explore(&body, None, 2_000_000, budget * 4.0, prefill);
+        total_exec += r.executions;
+        sweep_exec += r.executions;
+        if r.capped {
+            capped += 1;
+        }
+        if let Some(v) = r.violation {
+            viol.add("", || Violation { key: String::new(), summary: format!("cache pre-filled with {prefill} other configurations, threads {body:?}: {v}"), replay: json!({"prefill": prefill, "threads": format!("{body:?}"), "problem": v, "how": "build `prefill` distinct one-pattern configurations through the cache, then two threads build two distinct new configurations; loom::model over scnr built with feature verif_loom"}) });
+            break;
+        }
+    }
+    prefilled.push(json!({"capacity_sweep": {"typical_bounds": bounds, "prefill_values": fills.len(), "threads": "[[BuildAPrime], [BuildB]]", "executions": sweep_exec}}));
+    // second sweep: the entries the threads look up are the OLDEST ones. A is built first, then F
+    // other one-pattern configurations (every F from C-16 to C+1 for the typical bounds C: a ring or
+    // LRU structure of capacity C is about to overwrite A's entries), then one thread re-creates A
+    // outside the cache lock (Scanner::try_from) or through it (build) while another thread
+    // introduces new patterns outside the cache lock
+    {
+        let bounds2: &[usize] = if tier == Tier::Quick { &[64, 128, 256] } else { &[16, 32, 64, 100, 128, 256, 512, 1000, 1024] };
+        let mut fills2: Vec<usize> = bounds2.iter().flat_map(|c| (c.saturating_sub(16)..=c + 1)).collect();
+        fills2.sort();
+        fills2.dedup();
+        let mut sweep2_exec = 0usize;
+        FILL_AFTER_SHARED.store(true, Ordering::Relaxed);
+        'sweep2: for &prefill in &fills2 {
+            if stress_failed {
+                break;
+            }
+            for body in [vec![vec![Op::TryFromA], vec![Op::TryFromDeep]], vec![vec![Op::BuildA], vec![Op::UncachedDeep2]]] {
+                // all schedules with at most two preemptions first (closes in any case), then all
+                let mut r = explore(&body, Some(2), 2_000_000, budget, prefill);
+                total_exec += r.executions;
+                sweep2_exec += r.executions;
+                if r.violation.is_none() {
+                    r = explore(&body, None, 2_000_000, budget, prefill);
+                    total_exec += r.executions;
+                    sweep2_exec += r.executions;
+                }
+                if r.capped {
+                    capped += 1;
+                }
+                if let Some(v) = r.violation {
+                    viol.add("", || Violation { key: String::new(), summary: format!("A built, then {prefill} other configurations, then threads {body:?}: {v}"), replay: json!({"fill_after_the_shared_scanner": prefill, "threads": format!("{body:?}"), "problem": v, "how": "build A through the cache, then `fill` distinct one-pattern configurations through the cache, then run the threads; loom::model over scnr built with feature verif_loom"}) });
+                    break 'sweep2;
+                }
+            }
+        }
+        FILL_AFTER_SHARED.store(false, Ordering::Relaxed);
+        prefilled.push(json!({"capacity_sweep_oldest_entries": {"typical_bounds": bounds2, "fill_values": fills2.len(), "threads": "[[TryFromA], [TryFromDeep]] and [[BuildA], [UncachedDeep2]]", "executions": sweep2_exec}}));
+    }
+    let unexplored = bodies.len() - explored_bodies;
     let n_dis = viol.total();
     viol.flush(&mut run);
     let mut cov = Map::new();
